@@ -2,5 +2,5 @@ SPECIFICATION Spec
 CONSTANTS Sigma <- SigmaA
           MaxLen = 5
           Emit = FALSE
-INVARIANTS Recase Respace Decorate BlankLine NoticeIns Marker HyphenSplit
+INVARIANTS Recase Respace Decorate BlankLine NoticeIns Marker HyphenSplit TailLine
 CHECK_DEADLOCK FALSE
